@@ -26,7 +26,7 @@ package util
 // ASSUMED-NOT: the cron library is not assumed to be panic free — (Parser).Parse panics on an expression that is a
 // TZ=/CRON_TZ= prefix without a spec (finding F18), and the expression is client input (C13): the parse runs
 // under a deferred recover
-//@ site call Parse assert [C13] recovers()
+//@ site call Parse assert [C13 C15 C10 C12] recovers()
 
 // The decoding chain the sender uses for a stored receiver (C19: a receiver is read either as a logical name or
 // as a physical receiver, never as a mixture): each target is tried once, and a target whose attempt failed is
